@@ -1,6 +1,7 @@
 package harness
 
 import (
+	"bytes"
 	"fmt"
 	"io"
 	"math/rand"
@@ -1180,12 +1181,13 @@ func limitScenario(name string, seed int64) Scenario {
 		sc.newSession() // canary (polling)
 		sc.settle()
 		can := sc.ss[0]
-		sizes := []int{int(limit) - 1, int(limit), int(limit) + 1, int(limit) * 10, int(limit)*300 + 7}
+		sizes := []int{int(limit) - 1, int(limit), int(limit) + 1, int(limit) * 10, int(limit)*300 + 7, int(limit)*2 - 1, int(limit) * 3, int(limit)*3 + 3}
 		for i := 0; i < 6; i++ {
 			size := sizes[r.Intn(len(sizes))]
 			switch r.Intn(3) {
 			case 0: // polling data request, declared or unknown length
-				s, _ := w.Handshake(4, false, false, ReqOpt{})
+				jsonp := r.Intn(3) == 0 // the JSONP flavour: the payload travels as the form field d
+				s, _ := w.Handshake(4, jsonp, jsonp, ReqOpt{})
 				if s.Sid == "" {
 					continue
 				}
@@ -1195,13 +1197,18 @@ func limitScenario(name string, seed int64) Scenario {
 				if multi {              // several small packets in front, then the big one
 					head = append([]byte("4ab\x1e4cd\x1e"), head...)
 				}
+				ctype := ""
+				if jsonp {
+					head = append([]byte("d="), bytes.ReplaceAll(head, []byte("\x1e"), []byte("%1E"))...)
+					ctype = "application/x-www-form-urlencoded"
+				}
 				if size < len(head) {
 					size = len(head)
 				}
 				body := &countingBody{total: size, head: head}
 				w.Cause(s.Sid, "error")
-				rec.Log("c10.post", "sid", s.Sid, "size", size, "declared", declared, "limit", limit, "multi", multi, "rid", w.reqN+1)
-				ro := ReqOpt{Method: "POST", BodyRdr: body, NoCL: !declared, DeclLen: int64(size)}
+				rec.Log("c10.post", "sid", s.Sid, "size", size, "declared", declared, "limit", limit, "multi", multi, "jsonp", jsonp, "rid", w.reqN+1)
+				ro := ReqOpt{Method: "POST", BodyRdr: body, NoCL: !declared, DeclLen: int64(size), CType: ctype}
 				rq := w.StartReq("post", s, ro)
 				sc.settle()
 				rec.Log("c10.body", "rid", rq.ID, "consumed", body.consumed, "size", size, "limit", limit, "status", rq.Status)
